@@ -962,6 +962,17 @@ RECURRING = [lambda: {'k' * 130: 1}, lambda: {'\u20ac' * 100: 'x', 'a': 1}, lamb
              lambda: {'q' * 200: {'q' * 200: None}}, lambda: 40000, lambda: 3000000000]
 
 
+def recurring_ops():
+    """every recurring value encoded under BOTH settings of the switch (appended to the operation list of the
+    fresh-interpreter comparison: (line, thunk, desc, switch))"""
+    out = []
+    for i, mk in enumerate(RECURRING):
+        for flag in (True, False, True):
+            v = mk()
+            out.append(('api.encvalue ' + sx(v), (lambda v=v: outcome(encode.encode_table_value, v, show=show_bytes)), 'recurring %d' % i, flag))
+    return out
+
+
 def api_ops(ctx, n):
     """a random operation sequence: (driver line, thunk computing the real outcome)"""
     g = ctx.gen
